@@ -114,11 +114,14 @@ def build_level(seed, n_cases):
             deps = {nm: [names[j] for j in range(i + 1, n) if rnd.random() < .5] for i, nm in enumerate(names)}
             if ci == 0: names = ['p0', 'b', 'c', 'd', 'e']; deps = {'p0': ['b', 'c', 'e'], 'b': ['d'], 'c': ['d'], 'd': [], 'e': []}      # diamond over a failing package
             fail = 'd' if ci == 0 else (rnd.choice(names[1:]) if rnd.random() < .6 else None)
+            fail_in = 'build' if ci == 0 else rnd.choice(['build', 'package'])       # the failing script: build or package step of that package
+            if ci == 1:       # two dependents ask for a package whose PACKAGE step fails, one after the other
+                names = ['p0', 'a', 'b', 'c']; deps = {'p0': ['a', 'b'], 'a': ['c'], 'b': ['c'], 'c': []}; fail = 'c'; fail_in = 'package'
             R = {}
             for nm in names:
                 # the failing script fails at once, the others take a while: a failure must not take down unrelated running steps
-                R[nm] = {'buildScript': 'echo "start %s $$" >> %s\nsleep %s\necho "end %s $$" >> %s\n%s' % (nm, log, '0' if nm == fail else '0.%d' % rnd.randint(2, 6), nm, log, 'exit 1\n' if nm == fail else 'echo ok > out.txt\n'),
-                         'packageScript': 'cp "$1"/out.txt . 2>/dev/null || true\n'}
+                R[nm] = {'buildScript': 'echo "start %s $$" >> %s\nsleep %s\necho "end %s $$" >> %s\n%s' % (nm, log, '0' if nm == fail else '0.%d' % rnd.randint(2, 6), nm, log, 'exit 1\n' if (nm == fail and fail_in == 'build') else 'echo ok > out.txt\n'),
+                         'packageScript': ('exit 1\n' if (nm == fail and fail_in == 'package') else 'cp "$1"/out.txt . 2>/dev/null || true\n')}
                 if deps[nm]: R[nm]['depends'] = deps[nm]
             R[names[0]]['root'] = True
             results = {}
@@ -129,7 +132,7 @@ def build_level(seed, n_cases):
                     open(log, 'w').close()
                     rc, out = p.bob('dev', names[0], '-j', str(jobs), *(['-k'] if keep else []))
                     lines = [l.split() for l in open(log).read().split('\n') if l]
-                    desc = {'recipes': deps, 'failing': fail, 'jobs': jobs, 'keep_going': keep}
+                    desc = {'recipes': deps, 'failing': fail, 'failing_step': fail_in, 'jobs': jobs, 'keep_going': keep}
                     starts = [l[1] for l in lines if l[0] == 'start']
                     dup = sorted({x for x in starts if starts.count(x) > 1})
                     if dup: return {'kind': 'workspace-executed-twice-in-one-invocation', 'packages': dup, **desc}
@@ -175,7 +178,7 @@ def replay(rep):
             return {'reproduced': True, 'tried': tried,
                     'witness': {'recursive': recursive, 'tokens_in_pipe': toks, 'task_scripts(delay,hold)': scripts, 'foreign(take,return_delays)': ext, 'observed': v}}
         if tried > 15000: break
-    nb = 6 if os.environ.get('VERIF_TIER') == 'thorough' else 2
+    nb = 7 if os.environ.get('VERIF_TIER') == 'thorough' else 3
     w = build_level(seed, nb)
     if w is not None: return {'reproduced': True, 'tried': tried + 1, 'witness': w}
     return {'reproduced': False, 'tried': tried + nb * 6, 'bound': 'semaphore schedules up to the stated search bound + %d generated DAGs (3-6 packages, optional failing step) built with -j 1/2/4, with and without -k' % nb,
